@@ -127,7 +127,7 @@ type ent struct {
 	s       *list.Element
 	owner   int // 0 = A, 1 = B
 	removed bool
-	dropped bool // predates an Init of its list: not used any more (deliberately not demanded)
+	stale   bool // was a member when its list was Init()-ed: container/list keeps e.list == l, so it still counts as a member
 }
 
 type world struct {
@@ -168,6 +168,8 @@ func (w *world) class(i, of int) string {
 		return "removed"
 	case e.owner != of:
 		return "foreign"
+	case e.stale:
+		return "stale"
 	}
 	return "live"
 }
@@ -191,7 +193,49 @@ type outcome struct {
 	what  string
 }
 
-func (w *world) usable(i int) bool { return i >= 0 && i < len(w.pool) && !w.pool[i].dropped }
+func (w *world) usable(i int) bool { return i >= 0 && i < len(w.pool) }
+
+// walkLimit bounds every traversal: after an Init, handles that predate it can splice the chain into shapes in
+// which Len and the reachable elements disagree, so no traversal may rely on terminating by itself. Both sides
+// exceeding the limit counts as equal, one side only as a mismatch.
+const walkLimit = 300
+
+// sv is the value of a container/list element; the sentinel (reachable as Front() of a list whose Len and chain
+// disagree) has a nil Value where ds.List reports the zero value.
+func sv(e *list.Element) int {
+	if v, ok := e.Value.(int); ok {
+		return v
+	}
+	return 0
+}
+
+// stdWalk returns the values reachable from Front (or Back) of a container/list and whether the walk ended.
+func stdWalk(l *list.List, back bool) (vals []int, ended bool) {
+	e := l.Front()
+	if back {
+		e = l.Back()
+	}
+	for n := 0; e != nil; n++ {
+		if n >= walkLimit {
+			return vals, false
+		}
+		vals = append(vals, sv(e))
+		if back {
+			e = e.Prev()
+		} else {
+			e = e.Next()
+		}
+	}
+	return vals, true
+}
+
+// consistent: Len equals the number of elements reachable in either direction (always true unless handles that
+// predate an Init were used).
+func consistent(l *list.List) bool {
+	f, okF := stdWalk(l, false)
+	b, okB := stdWalk(l, true)
+	return okF && okB && l.Len() == len(f) && l.Len() == len(b)
+}
 
 func flavourName(ts bool) string {
 	if ts {
@@ -307,11 +351,11 @@ func (w *world) apply(o op, check bool) (out outcome) {
 		e := w.pool[o.A]
 		out.class = fmt.Sprintf("%s(%s)", name, w.class(o.A, li))
 		var hv int
-		var sv any
+		var rv any
 		ph = try(func() { hv = w.h[li].Remove(e.h) })
-		ps = try(func() { sv = w.s[li].Remove(e.s) })
-		if ps == nil && ph == nil && hv != sv.(int) {
-			return diverge("returned-value", "%s returned %d, container/list %d", out.class, hv, sv.(int))
+		ps = try(func() { rv = w.s[li].Remove(e.s) })
+		if ri, _ := rv.(int); ps == nil && ph == nil && hv != ri {
+			return diverge("returned-value", "%s returned %d, container/list %d", out.class, hv, ri)
 		}
 		if e.owner == li && !e.removed {
 			w.pool[o.A].removed = true
@@ -327,6 +371,13 @@ func (w *world) apply(o op, check bool) (out outcome) {
 			out.st = stInvalid // bound on the list length
 			return
 		}
+		if !consistent(w.s[oi]) {
+			// deliberately not demanded: copying a list whose Len and chain disagree (only reachable through handles that
+			// predate an Init). container/list copies Len elements (or panics on a short chain), the thread-safe flavour
+			// copies the reachable chain.
+			out.st = stInvalid
+			return
+		}
 		if o.K == kPBL {
 			ph = try(func() { w.h[0].PushBackList(w.h[oi]) })
 			ps = try(func() { w.s[0].PushBackList(w.s[oi]) })
@@ -339,10 +390,8 @@ func (w *world) apply(o op, check bool) (out outcome) {
 		ph = try(func() { ret = w.h[0].Init() })
 		w.s[0].Init()
 		for i := range w.pool {
-			if w.pool[i].owner == 0 && !w.pool[i].removed && !w.pool[i].dropped {
-				w.pool[i].dropped = true
-				delete(w.byH, w.pool[i].h)
-				delete(w.byS, w.pool[i].s)
+			if w.pool[i].owner == 0 && !w.pool[i].removed {
+				w.pool[i].stale = true
 			}
 		}
 		if ph == nil && (ret == nil || ret.Len() != 0) {
@@ -354,7 +403,7 @@ func (w *world) apply(o op, check bool) (out outcome) {
 			for n := 0; he != nil && se != nil && n < 256; n++ {
 				_, okH := w.byH[he]
 				_, okS := w.byS[se]
-				if !okH && !okS {
+				if !okH && !okS && se.Value != nil { // never pool the sentinel
 					w.add(he, se, li)
 				}
 				he, se = he.Next(), se.Next()
@@ -394,8 +443,8 @@ func (w *world) sameElem(he ds.ListElement[int], se *list.Element) (bool, string
 	if p := try(func() { hv = he.Value() }); p != nil {
 		return false, fmt.Sprintf("Value() panicked: %v", p)
 	}
-	if hv != se.Value.(int) {
-		return false, fmt.Sprintf("value %d vs container/list %d", hv, se.Value.(int))
+	if hv != sv(se) {
+		return false, fmt.Sprintf("value %d vs container/list %d", hv, sv(se))
 	}
 	ih, okH := w.byH[he]
 	is, okS := w.byS[se]
@@ -428,26 +477,20 @@ func (w *world) compare() (kind, what string) {
 		if h.Len() != s.Len() {
 			return "len", fmt.Sprintf("%s Len()=%d, container/list %d", ln, h.Len(), s.Len())
 		}
-		var fwd []int
-		for e := s.Front(); e != nil; e = e.Next() {
-			fwd = append(fwd, e.Value.(int))
-		}
-		rev := make([]int, len(fwd))
-		for i, v := range fwd {
-			rev[len(fwd)-1-i] = v
-		}
-		// forward traversal through handles
+		fwd, fwdEnded := stdWalk(s, false)
+		rev, revEnded := stdWalk(s, true)
+		// forward / backward traversal through handles, bounded
 		he, se := h.Front(), s.Front()
-		for n := 0; (he != nil || se != nil) && n <= len(fwd)+2; n++ {
+		for n := 0; (he != nil || se != nil) && n < walkLimit; n++ {
 			if ok, d := w.sameElem(he, se); !ok {
-				return "forward-order", fmt.Sprintf("%s forward position %d: %s (container/list order %v, hive Values %v)", ln, n, d, fwd, safeValues(h))
+				return "forward-order", fmt.Sprintf("%s forward position %d: %s (container/list order %v, Len %d)", ln, n, d, fwd, s.Len())
 			}
 			he, se = he.Next(), se.Next()
 		}
 		he, se = h.Back(), s.Back()
-		for n := 0; (he != nil || se != nil) && n <= len(fwd)+2; n++ {
+		for n := 0; (he != nil || se != nil) && n < walkLimit; n++ {
 			if ok, d := w.sameElem(he, se); !ok {
-				return "backward-order", fmt.Sprintf("%s backward position %d: %s (container/list reverse order %v)", ln, n, d, rev)
+				return "backward-order", fmt.Sprintf("%s backward position %d: %s (container/list reverse order %v, Len %d)", ln, n, d, rev, s.Len())
 			}
 			he, se = he.Prev(), se.Prev()
 		}
@@ -458,47 +501,38 @@ func (w *world) compare() (kind, what string) {
 		if ok, d := w.sameElem(h.Back(), s.Back()); !ok {
 			return "back", ln + " Back(): " + d
 		}
-		// bulk accessors
-		if v := h.Values(); !eqInts(v, fwd) {
-			return "values", fmt.Sprintf("%s Values()=%v, container/list %v", ln, v, fwd)
-		}
-		var a, b, c2, d2 []int
-		lim := len(fwd) + 3
-		_ = h.ForEach(func(v int) error {
-			if a = append(a, v); len(a) > lim {
-				return fmt.Errorf("stop")
+		// bulk accessors (they cannot be bounded from outside: only when the handle walk above – which agreed – ended)
+		if fwdEnded {
+			if v := h.Values(); !eqInts(v, fwd) {
+				return "values", fmt.Sprintf("%s Values()=%v, container/list %v", ln, v, fwd)
 			}
-			return nil
-		})
-		_ = h.ForEachReverse(func(v int) error {
-			if b = append(b, v); len(b) > lim {
-				return fmt.Errorf("stop")
+			var a, c2 []int
+			_ = h.ForEach(func(v int) error { a = append(a, v); return nil })
+			h.Range(func(v int) { c2 = append(c2, v) })
+			if !eqInts(a, fwd) || !eqInts(c2, fwd) {
+				return "foreach", fmt.Sprintf("%s ForEach=%v Range=%v, container/list %v", ln, a, c2, fwd)
 			}
-			return nil
-		})
-		h.Range(func(v int) { c2 = append(c2, v) })
-		h.RangeReverse(func(v int) { d2 = append(d2, v) })
-		if !eqInts(a, fwd) || !eqInts(c2, fwd) {
-			return "foreach", fmt.Sprintf("%s ForEach=%v Range=%v, container/list %v", ln, a, c2, fwd)
 		}
-		if !eqInts(b, rev) || !eqInts(d2, rev) {
-			return "foreach-reverse", fmt.Sprintf("%s ForEachReverse=%v RangeReverse=%v, container/list %v", ln, b, d2, rev)
+		if revEnded {
+			var b, d2 []int
+			_ = h.ForEachReverse(func(v int) error { b = append(b, v); return nil })
+			h.RangeReverse(func(v int) { d2 = append(d2, v) })
+			if !eqInts(b, rev) || !eqInts(d2, rev) {
+				return "foreach-reverse", fmt.Sprintf("%s ForEachReverse=%v RangeReverse=%v, container/list %v", ln, b, d2, rev)
+			}
 		}
 	}
 	for i := range w.pool {
 		e := &w.pool[i]
-		if e.dropped {
-			continue
-		}
 		cl := w.class(i, 0)
 		if ok, d := w.sameElem(e.h.Prev(), e.s.Prev()); !ok {
-			return "handle-prev", fmt.Sprintf("handle #%d (%s, value %d) Prev(): %s", i, cl, e.s.Value.(int), d)
+			return "handle-prev", fmt.Sprintf("handle #%d (%s, value %d) Prev(): %s", i, cl, sv(e.s), d)
 		}
 		if ok, d := w.sameElem(e.h.Next(), e.s.Next()); !ok {
-			return "handle-next", fmt.Sprintf("handle #%d (%s, value %d) Next(): %s", i, cl, e.s.Value.(int), d)
+			return "handle-next", fmt.Sprintf("handle #%d (%s, value %d) Next(): %s", i, cl, sv(e.s), d)
 		}
-		if e.h.Value() != e.s.Value.(int) {
-			return "handle-value", fmt.Sprintf("handle #%d (%s) Value()=%d, container/list %d", i, cl, e.h.Value(), e.s.Value.(int))
+		if e.h.Value() != sv(e.s) {
+			return "handle-value", fmt.Sprintf("handle #%d (%s) Value()=%d, container/list %d", i, cl, e.h.Value(), sv(e.s))
 		}
 	}
 	return "", ""
@@ -517,10 +551,7 @@ func safeValues(l ds.List[int]) (v []int) {
 }
 
 func (w *world) order() []int {
-	var fwd []int
-	for e := w.s[0].Front(); e != nil; e = e.Next() {
-		fwd = append(fwd, e.Value.(int))
-	}
+	fwd, _ := stdWalk(w.s[0], false)
 	return fwd
 }
 
@@ -770,7 +801,7 @@ func (l *local) randomSeq(rng *rand.Rand, tsA, tsB bool, length int, allowSelf b
 		}
 		out := w.apply(o, true)
 		if out.st == stInvalid {
-			ops = ops[:len(ops)-1] // e.g. length bound or dropped handle: skip
+			ops = ops[:len(ops)-1] // e.g. length bound or copying an inconsistent list: skip
 			l.invalid++
 			continue
 		}
@@ -907,7 +938,7 @@ func run(c *vf.Ctx) {
 	c.SetRule("a case is one operation sequence applied in lock-step to a ds.List and a container/list.List (plus a foreign list pair) with a full comparison after every step; " +
 		"exhaustive part: every sequence up to length 5 (quick) / 6 (thorough) over an alphabet of 44 operations whose handle arguments range over the first 3 pooled handles (live, removed and foreign ones arise from the sequence itself), both flavours; " +
 		"random part: seeded sequences of length 40 over the whole handle pool incl. handles created by whole-list pushes; evaluations counts sequences whose last step was checked (exhaustive) resp. checked steps (random); " +
-		"distinct_nontrivial counts distinct (flavour, sequence of operation x argument-class) signatures, e.g. PushBack>PushBack>MoveBefore(live,live)>Remove(live), of sequences (exhaustive ones up to length 5, and the random ones) that agreed with the reference and contain at least one handle-taking, whole-list or Init operation (handle numbering is abstracted away); distinct_op_argclass counts operation x argument-class (live/removed/foreign/same/self/other) combinations")
+		"distinct_nontrivial counts distinct (flavour, sequence of operation x argument-class) signatures, e.g. PushBack>PushBack>MoveBefore(live,live)>Remove(live), of sequences (exhaustive ones up to length 5, and the random ones) that agreed with the reference and contain at least one handle-taking, whole-list or Init operation (handle numbering is abstracted away); distinct_op_argclass counts operation x argument-class (live/removed/foreign/stale = predates an Init/same/self/other) combinations")
 	maxLen := c.Pick(5, 6)
 	t0 := time.Now()
 	for _, ts := range []bool{false, true} {
@@ -950,9 +981,13 @@ func run(c *vf.Ctx) {
 	c.Require("op:PushFrontList(self)", 100)
 	c.Require("op:PushBackList(other)", 100)
 	c.Require("op:Init", 100)
+	c.Require("op:InsertAfter(stale)", 100)
+	c.Require("op:Remove(stale)", 100)
+	c.Require("op:MoveBefore(stale,live)", 100)
+	c.Require("op:MoveToFront(stale)", 100)
 	c.Require("selfpush_children_decided", 2)
 	c.Assume("container/list of the Go toolchain is the reference")
-	c.Assume("handles that predate an Init() of their list are not used any more (both implementations corrupt len there)")
+	c.Assume("handles that predate an Init() stay in the pool as class stale and full lock-step equality is demanded for them; only whole-list pushes FROM a list whose Len and reachable chain disagree (reachable only through stale handles) are skipped")
 }
 
 func main() { vf.Main("C10", "exploration", run, child) }
